@@ -240,10 +240,13 @@ def m_F23(case, backend, f):
 def m_F27(case, backend, f):
     if backend != "sqlite" or f["kind"] != "rows":
         return False
+    has_union = any(st[0] == "union" for p in walk_pipes(case["pipe"]) for st in p["steps"])
     for _, _, e in fns(case):
         if e[1] == "truediv":
             d = e[2][1]
             if not (d[0] == "lit" and isinstance(d[1], int) and abs(d[1]) in (1, 2, 4, 8)):
+                return True
+            if has_union:       # the quotient is exact, but its Decimal(38,10) type is the type of the union's column
                 return True
     return False
 
